@@ -42,7 +42,7 @@ TReset ==
   /\ hpos' = [c \in Conns |-> 0] /\ hfail' = [c \in Conns |-> FALSE] /\ hc' = [c \in Conns |-> FALSE]
   /\ out' = [c \in Conns |-> <<>>] /\ disp' = [c \in Conns |-> <<>>]
   /\ hlog' = [c \in Conns |-> <<>>] /\ cut' = [c \in Conns |-> <<>>]
-  /\ active' = Cardinality(Conns)
+  /\ active' = Cardinality(Conns) /\ lost' = [c \in Conns |-> 0]
   /\ seen' = [c \in Conns |-> 0]
   /\ pend' = [c \in Conns |-> FALSE]
 
@@ -125,5 +125,5 @@ TraceAccepted ==
   ELSE /\ PrintT(<<"TRACE-REJECTED at line", TLCGet(1), "of", Len(TraceLog)>>)
        /\ IF TLCGet(1) <= Len(TraceLog) THEN PrintT(<<"UNMATCHED", ToJson(TraceLog[TLCGet(1)])>>) ELSE TRUE
        /\ FALSE
-TView == <<scen, wire, rbuf, cseg, peer, pc, cur, hpos, hfail, hc, out, disp, hlog, active, l, seen, pend>>
+TView == <<scen, wire, rbuf, cseg, peer, pc, cur, hpos, hfail, hc, out, disp, hlog, active, lost, l, seen, pend>>
 =============================================================================
